@@ -231,7 +231,10 @@ def shrink(case):
     return out
 
 
-sample = c01.sample
+def sample(case):
+    return c01.sample(case) if case['kind'] == 'prop' else case
+
+
 THEOREM_FILES = ['P_C16']
 RULE = ('Hermitian restricted / SSO Hamiltonians with |t|*L1(H) graded over {1e-3 .. 30}, accuracies {1e-4 .. 1e-15}, '
         'expansion limits {2 .. 60}, Taylor and Chebyshev (enclosing and tight spectral bounds): raise iff the control-flow '
